@@ -30,11 +30,25 @@ RULE = ("aa.Inversion(dataset, linear_obj_list, settings, preloads=Preloads(...)
         "of the five set_* methods; the filled Preloads object, which calls raised, fit_0's reads and the fresh values of the filled slots go to "
         "Coq (KSet), followed by a history that uses the Preloads object (KHist); directed sub-streams reproduce defects 1fc8a9b and f780999. "
         "'subsets' cases (Python level): ALL subsets of the available slots x 2 inversions, byte fingerprints of every preloaded array. "
+        "'grid' cases (Python level, deterministic structure in every seed): every position structure fm / mf / mfm / fmf / mff / ffm / "
+        "mmf / fmm / mm / mfmf / fmfm / ffmm (neighbouring mappers with different parameter counts, function lists with distinct matrices "
+        "and alternately equal / different column counts, overrides) x {w-tilde class, mapping class, preloads of the mapping class against "
+        "the w-tilde inversion without preloads} x {no slot, every slot alone, 10 interacting pairs, all but one, all; all as aliases of the "
+        "producing inversion} x 2 inversions reading 20 attributes (the 15 modelled + the per-object dictionaries mapped_reconstructed_"
+        "data_dict / reconstruction_dict / mapped_reconstructed_image_dict with their keys, mapped_reconstructed_image) in rotated and "
+        "reversed orders; the Preloads object must come back unwritten. 'sets' grid (Python level): the same structures through "
+        "Preloads.set_* with fit_1 identical / other function objects AND other data / another number of parameters / other noise. "
+        "Kinds on a deterministic schedule (and at random in the Coq-checked streams): dataset = Imaging or DatasetInterface (its own noise "
+        "map, scaled per pixel with pixel 0 kept, and its own w_tilde; the fit's dataset keeps the unscaled noise map), entry point = "
+        "aa.Inversion / inversion_imaging_from / the class constructor (default preloads argument), trivial subclasses of Preloads, "
+        "SettingsInversion, the mapper, the function list and the regularization, int64- / float32-typed function matrices and overrides. "
+        "Fingerprints also cover the linear_obj_list object, the regularization objects, each mapper's unique-mapping arrays, dataset.w_tilde "
+        "and the default-argument objects of the two factories and the four class constructors. NO preloaded array may change (95fc1c6). "
         "'noise' cases: a preloaded w_tilde whose noise_map_value differs. Comparisons are relative to the scale of the expected value. "
         "Non-trivial = at least one slot filled and at least one mapper; distinct = distinct JSON input.")
 EXHAUSTIVE = {"quick": "per 'subsets' case: all subsets of the slots available for that object mix (up to 2^10), 2 inversions each",
               "thorough": "per 'subsets' case: all subsets of the slots available for that object mix (up to 2^10), 3 inversions each"}
-TRUSTED = ["hand-written Gallina model coq/Model/C15.v (slot look-ups, cache, references/aliases into the Preloads object, in-place "
+TRUSTED = ["hand-written Gallina model coq/Model/C15.v (follows /repo 95fc1c6; slot look-ups, cache, references/aliases into the Preloads object, in-place "
            "statements, the five Preloads.set_* methods) tied to /repo by this correspondence run: the model is executed at Q with dense "
            "reference semantics of the numeric kernels (C = convolver applied to the identity, W = P + P^T expanded from the w-tilde triple); "
            "the comparison is evaluated inside Coq by vm_compute",
@@ -179,8 +193,11 @@ def set_kinds(b, i, r0):
         if v: b[k] = v
         else: b.pop(k, None)
     idt = [None, "int", None, "f32", "int", None, None][j % 7]
+    first = True
     for o in b["objs"]:
-        if o["k"] == "f": o["idt"] = idt
+        if o["k"] == "f":
+            o["idt"] = idt
+            if idt and first: o["ovr"] = True; first = False     # the typed matrix itself reaches the dictionaries (no convolution)
     if idt and b.get("sc") and b["sc"][1] < 0: b["sc"] = [b["sc"][0], 0, b["sc"][2]]
     return b
 def gen_grid(rng, n, start=0):
